@@ -63,7 +63,7 @@ func ruleReplyDiscipline(c *Ctx) {
 				var pobjs []types.Object
 				for _, f := range callee.fn.Decl.Type.Params.List {
 					for _, nm := range f.Names {
-						pobjs = append(pobjs, callee.fn.Pkg.TypesInfo.ObjectOf(nm))
+						pobjs = append(pobjs, objOf(callee.fn.Pkg.TypesInfo, nm))
 					}
 				}
 				for i, a := range call.Args {
@@ -121,7 +121,7 @@ func ruleReplyDiscipline(c *Ctx) {
 		taken := func(sub, top ast.Node) bool {
 			if id, ok := top.(*ast.Ident); ok && sub == top {
 				if as, ok := par[id].(*ast.AssignStmt); ok {
-					if _, inComm := par[as].(*ast.CommClause); inComm && st.recvVars[info.ObjectOf(id)] {
+					if _, inComm := par[as].(*ast.CommClause); inComm && st.recvVars[objOf(info, id)] {
 						return true
 					}
 				}
